@@ -332,7 +332,10 @@ FormsOf(kinds) ==
             FormRec("mixed", kinds \cap {"Field", "Name", "Directive", "FieldDefinition"},
                     kinds \cap {"SelectionSet", "Argument", "Named"}, TRUE, TRUE, {}, {}),
             FormRec("mixed2", kinds \cap {"Field", "Document"}, kinds \cap {"Name"}, FALSE, FALSE,
-                    kinds \ {"Field", "Document", "Name"}, kinds \ {"Field", "Document", "Name"}) >>
+                    kinds \ {"Field", "Document", "Name"}, kinds \ {"Field", "Document", "Name"}),
+            \* precedence documented at GetVisitFn: the generic functions beat the kind maps that are also present
+            FormRec("mixed3", {}, {}, TRUE, TRUE, kinds \cap {"Field", "Name", "Argument"},
+                    kinds \cap {"Field", "SelectionSet", "Document"}) >>
     [] FormGroup = "partial" ->
          LET e == kinds \cap PartE
              l == kinds \cap PartL
